@@ -64,7 +64,7 @@ __CPROVER_ensures(/* the indent option only selects the indenting writer, built 
         Mutant('utf8_1_0_noindent_indents', FA, r'typedef XalanDummyIndentWriter<XalanUTF8Writer> IndentWriter;(\s*typedef FormatterToXMLUnicode<\s*XalanUTF8Writer,\s*XalanXMLSerializerBase::UTF8,\s*XalanXMLSerializerBase::CharFunctor1_0,)',
                r'typedef XalanFormatterWriter::NewLineWriterFunctor<XalanUTF8Writer> NewLineWriter;\n                typedef XalanFormatterWriter::WhiteSpaceWriterFunctor<XalanUTF8Writer> WhiteSpaceWriter;\n                typedef XalanIndentWriter<WhiteSpaceWriter,NewLineWriter> IndentWriter;\1', expect='indent option'),
     ],
-    mechanisms=['output method and option selection, API overrides'],
+    mechanisms=['output method and option selection, API overrides', 'serializer selection by encoding/version/indent (3 writer families x 2 x 2 template instances)'],
     assumptions=['setEncoding (fallback to UTF-8 for unsupported encodings) and the constructors of the twelve instantiations are not under contract',
                  'the arguments of Type::create(...) are not compared (they are the same nine values in every branch)'],
 )
